@@ -155,6 +155,19 @@ def check(ctx):
                     ctx.oblige("R-C07.6", f"`{pop}` before `{cop}x`", ok, sample={"rule": "R-C07.6", "parent op": pop, "child op": cop, "parenthesised": par} if (not ok or (pop == "-" and cop == "--")) else None)
                     if not ok:
                         viol("R-C07.6", f"fusion:{pop}:{cop}", f"visit_UnaryOp prints `{pop}` directly followed by the unparenthesised operand `{cop}x`: the text `{pop}{cop}x` is re-lexed as different tokens (`{(pop + cop)[:2]}` ...)", "CGenerator.visit_UnaryOp", node)
+    # ... and a constant is never glued to the `.` of a member access: `1.x` is the floating constant `1.` followed by x
+    fe = g.field_emissions("StructRef") or {}
+    nsr = 0
+    for idiom, node, extra, ops in fe.get("name", []):
+        for reduce in (False, True):
+            par = g.parenthesised(idiom, extra, ("Constant", None), None, reduce)
+            nsr += 1
+            ctx.oblige("R-C07.6", "a constant before `.member` is parenthesised", bool(par), sample={"rule": "R-C07.6", "slot": "StructRef.name", "child": "Constant", "parenthesised": bool(par)})
+            if not par:
+                viol("R-C07.6", "fusion:Constant:.", "visit_StructRef prints a Constant base directly followed by `.`: the text `1.x` is re-lexed as the floating constant `1.` followed by `x` and no longer parses "
+                     "(`(1).x` is a syntactically valid postfix expression)", "CGenerator.visit_StructRef", node)
+    if not nsr:
+        raise AnalysisError("visit_StructRef: emission of the base expression not found")
     ctx.require_instances("R-C07.2", 20)
 
     # ---- R-C07.3 ------------------------------------------------------------------------
